@@ -31,11 +31,14 @@ from harness.props import c13_seeds as S
 from harness.props import c13_known as K
 
 LEVEL = "proof"
-RULE = ("fault cases: (seed document, single fault, entry point); seeds are 7 feature-covering documents built by "
+RULE = ("fault cases: (seed document, single fault, entry point; entry points run with caching on and, for a share of the "
+        "cases - always for reference faults - with caching=False / disable_caching=True); seeds are 7 feature-covering documents built by "
         "the harness writer; fault = replace one dictionary value / array element by a value of another type "
         "(null,bool,int,real,name,string,array,dict,ref; several values per type), remove one key, redirect one "
         "reference (self / containing object / missing / 2-cycle), damage one stream payload (empty, truncate, "
-        "flip, drop token, junk at a position), truncate the file at a position; quick tier samples the sites "
+        "flip, drop token, junk at a position), truncate the file at a position, replace a value by a degenerate or "
+        "boundary value of the same type (0, -1, 2^31-1, 2^63, 10^30, empty string/name/array/dict, 70 kB string), damage "
+        "one entry of an inline image dictionary inside a content stream; quick tier samples the sites "
         "(all reference faults and key removals, stratified sample of the rest), thorough enumerates all; a case "
         "is non-trivial when the faulted bytes differ from the seed and is distinct by (seed, fault, entry). "
         "model cases: random object graphs with ill-typed values, missing objects and reference cycles")
@@ -57,6 +60,12 @@ ASSUMPTIONS = [
 STATEMENT_STATUS = K.STATEMENT_STATUS
 
 ENTRIES = ("text", "pages", "xml")
+# the same entry points with caching=False / disable_caching=True (fresh objects on every resolution)
+ENTRIES_NC = ("text_nc", "pages_nc", "xml_nc")
+# rarely used options: layout parameters / page selection / password; html and tag output; image export
+ENTRIES_OPT = ("text_la", "html", "tag", "xml_img")
+ALL_ENTRIES = ENTRIES + ENTRIES_NC
+EVERY_ENTRY = ALL_ENTRIES + ENTRIES_OPT
 BAD = ("internal", "budget", "recursion", "wall", "hang", "crash")
 WORKER = os.path.join(os.path.dirname(os.path.abspath(__file__)), "c13_worker.py")
 C0 = 20000
@@ -191,18 +200,21 @@ def calibrate(ctx: C.Ctx, seeds: List[S.SeedDoc]) -> Dict[str, Dict[str, Any]]:
     for s in seeds:
         data = S.write_doc(s)
         docs[s.name] = data
-        jobs.append({"id": "clean:" + s.name, "pdf": data.hex(), "entries": list(ENTRIES), "wall": 60})
+        jobs.append({"id": "clean:" + s.name, "pdf": data.hex(), "entries": list(EVERY_ENTRY), "wall": 60})
     res = run_jobs(jobs, nworkers=1)
     cal: Dict[str, Dict[str, Any]] = {}
     for s in seeds:
         ev = 0
-        for e in ENTRIES:
+        for e in EVERY_ENTRY:
             r = res.get(("clean:" + s.name, e))
-            if r is None or r["cls"] != "ok":
+            allowed = ("ok", "family") if e in ENTRIES_OPT else ("ok",)
+            # (option variants: a wrong password, or the seed's arbitrary CCITT image bytes when images are
+            # exported, legitimately end in a family error)
+            if r is None or r["cls"] not in allowed:
                 # a seed must be a VALID document: anything else is a defect of the harness, not of pdfminer
                 raise C.Infra(f"clean seed {s.name}/{e} does not run: {r}")
             ev = max(ev, r["events"])
-            ctx.case(("clean", s.name, e), True, branch="clean:ok")
+            ctx.case(("clean", s.name, e), True, branch="clean:" + r["cls"])
         n = len(docs[s.name])
         cal[s.name] = {"len": n, "events": ev, "k": FACTOR * ev / (n + 1), "data": docs[s.name]}
     ctx.extra["budget_calibration"] = {k: {"len": v["len"], "clean_line_events": v["events"],
@@ -233,10 +245,16 @@ def choose_faults(ctx: C.Ctx, seeds: List[S.SeedDoc], cal) -> List[Tuple[S.SeedD
             payload = []
             for f in faults:
                 if f["kind"] in ("ref", "remove"):
-                    if f["kind"] == "remove" or rng.random() < 0.8 * ctx.boost:
+                    if f["kind"] == "remove" or f["how"] != "missing" or rng.random() < 0.5 * ctx.boost:
                         chosen.append(f)
                 elif f["kind"] == "replace":
                     by_site[json.dumps([f["target"], f["obj"], f["path"]], default=str)].append(f)
+                elif f["kind"] == "extreme":
+                    if rng.random() < 0.25 * ctx.boost:
+                        chosen.append(f)
+                elif f["kind"] == "inline":
+                    if rng.random() < 0.5 * ctx.boost:
+                        chosen.append(f)
                 else:
                     payload.append(f)
             for site, fs in by_site.items():
@@ -245,21 +263,29 @@ def choose_faults(ctx: C.Ctx, seeds: List[S.SeedDoc], cal) -> List[Tuple[S.SeedD
                 for f in fs:
                     if f["to"] in tys and f["alt"] == 0:
                         chosen.append(f)
-                if rng.random() < 0.35 * ctx.boost:
+                if rng.random() < 0.25 * ctx.boost:
                     chosen.append(rng.choice(fs))
-            npay = min(len(payload), ctx.n(300, 0))
+            npay = min(len(payload), ctx.n(170, 0))
             chosen += rng.sample(payload, npay)
             # every truncation point of every RunLength-coded payload (a cut right after a length byte is
             # a single position per run)
             for f in payload:
                 if f["how"] == "truncate" and f["target"] == "obj" and _is_runlength(s.objs.get(f["obj"])):
                     chosen.append(f)
-            chosen += rng.sample(trunc, min(len(trunc), ctx.n(200, 0)))
+            chosen += rng.sample(trunc, min(len(trunc), ctx.n(110, 0)))
         for f in chosen:
             if thorough:
-                ents = list(ENTRIES)
+                if f["kind"] in ("ref", "extreme", "inline", "remove"):
+                    ents = list(ALL_ENTRIES)
+                else:
+                    ents = list(ENTRIES) + [ENTRIES_NC[rot % 3], ENTRIES_OPT[rot % 4]]
+                    rot += 1
+            elif f["kind"] == "ref":
+                # reference faults are where guards keyed by identity fail: always both caching modes
+                ents = [ENTRIES[rot % 3], ENTRIES_NC[rot % 3]]
+                rot += 1
             else:
-                ents = [ENTRIES[rot % 3]]
+                ents = [EVERY_ENTRY[rot % len(EVERY_ENTRY)]]
                 rot += 1
             plan.append((s, f, ents))
     rng.shuffle(plan)
@@ -339,8 +365,33 @@ def run_faults(ctx: C.Ctx) -> None:
                 continue
             seen.add(j["id"])
             jobs.append(j)
-        wire = [{k: v for k, v in j.items() if not k.startswith("_")} for j in jobs]
+        wire = []
+        sentinels = []
+        names = sorted(cal)
+        for k, j in enumerate(jobs):
+            wire.append({kk: v for kk, v in j.items() if not kk.startswith("_")})
+            if k % 40 == 39:
+                # a clean seed in the same worker process, after damaged documents: module-level caches (CMaps,
+                # fonts, interned names) must not carry damage from one document to the next
+                nm = names[(k // 40) % len(names)]
+                sid = f"sentinel:{i}:{k}:{nm}"
+                wire.append({"id": sid, "pdf": cal[nm]["data"].hex(), "entries": ["text", "xml_nc"],
+                             "budget": budget_for(cal[nm], cal[nm]["len"]), "wall": 20})
+                sentinels.append((sid, nm))
         res = run_jobs(wire, nworkers=nworkers, deadline=ctx.deadline + 30)
+        for sid, nm in sentinels:
+            for e in ("text", "xml_nc"):
+                r = res.get((sid, e))
+                if r is None:
+                    continue
+                ctx.case(("sentinel", sid, e), False, branch="sentinel:" + r["cls"])
+                if r["cls"] != "ok":
+                    ctx.fail(C.Failure("a clean document no longer extracts after damaged documents were processed in the "
+                                       "same process (state carried across documents)",
+                                       {"pdf": cal[nm]["data"].hex(), "entry": e, "seed": nm, "fault": {"kind": "none"},
+                                        "note": "run after other documents in one process"},
+                                       "ok", r, {"cls": r["cls"], "exc": r["exc"], "where": r["where"], "kind": "carried-state",
+                                                 "seed": nm, "entry": e}))
         for j in jobs:
             for e in j["entries"]:
                 r = res.get((j["id"], e))
@@ -379,7 +430,7 @@ def replay(ctx: C.Ctx, doc: Dict[str, Any], from_corpus: bool = False) -> None:
         return
     if "pdf" not in inp:
         return
-    ents = [inp["entry"]] if inp.get("entry") in ENTRIES else list(ENTRIES)
+    ents = [inp["entry"]] if inp.get("entry") in EVERY_ENTRY else list(ALL_ENTRIES)
     job = {"id": "replay", "pdf": inp["pdf"], "entries": ents, "budget": int(inp.get("budget", 5_000_000)), "wall": 20}
     res = run_jobs([job], nworkers=1)
     f = inp.get("fault", {"kind": "corpus"})
@@ -409,7 +460,7 @@ def run_corpus(ctx: C.Ctx) -> None:
         if "pdf" not in inp:
             continue
         name = "corpus:" + os.path.basename(path)
-        ents = [inp["entry"]] if inp.get("entry") in ENTRIES else list(ENTRIES)
+        ents = [inp["entry"]] if inp.get("entry") in EVERY_ENTRY else list(ENTRIES)
         jobs.append({"id": name, "pdf": inp["pdf"], "entries": ents, "budget": int(inp.get("budget", 5_000_000)), "wall": 20})
         meta[name] = inp
     if not jobs:
